@@ -669,6 +669,8 @@ pub fn run_batch<P: Property>(p: &P, opts: &Opts) -> BatchReport {
     let mut founds: Vec<&Found<P::Sc>> = tot.found.values().collect();
     founds.sort_by_key(|f| (f.run, f.sub));
     let mut reported = 0;
+    let mut prefix_reported = false;
+    let mut unreproducible_more = 0usize;
     for f in founds {
         if f.v.clause == "harness-error" || f.v.clause == "harness-model" {
             eprintln!("pkgsim: harness error in run {}: {}", f.run, f.v.detail);
@@ -692,26 +694,90 @@ pub fn run_batch<P: Property>(p: &P, opts: &Opts) -> BatchReport {
         }
         reported += 1;
         let sig = f.v.signature();
-        let (min_sc, execs) = minimise(p, &f.sc, &sig, 3000);
+        let (mut min_sc, mut execs) = minimise(p, &f.sc, &sig, 3000);
         // replay the minimised scenario twice; it must reproduce exactly
-        let o1 = exec_one(p, &min_sc, true);
-        let o2 = exec_one(p, &min_sc, false);
-        let (ok, v1) = match (&o1.outcome, &o2.outcome) {
-            (Err(a), Err(b)) => (
-                a.signature() == sig && b.signature() == sig && o1.ctx.ev == o2.ctx.ev,
-                Some(a.clone()),
-            ),
-            _ => (false, None),
+        let check = |sc: &P::Sc| {
+            let o1 = exec_one(p, sc, true);
+            let o2 = exec_one(p, sc, false);
+            let ok = match (&o1.outcome, &o2.outcome) {
+                (Err(a), Err(b)) => a.signature() == sig && b.signature() == sig && o1.ctx.ev == o2.ctx.ev,
+                _ => false,
+            };
+            (ok, o1)
         };
+        let (mut ok, mut o1) = check(&min_sc);
         if !ok {
-            eprintln!(
-                "pkgsim: harness error: minimised scenario for {} run {} does not reproduce deterministically",
-                sig, f.run
-            );
-            harness_error = true;
+            // the original, un-minimised scenario
+            let (ok2, o2) = check(&f.sc);
+            if ok2 {
+                ok = true;
+                o1 = o2;
+                min_sc = f.sc.clone();
+                execs = 0;
+            }
+        }
+        if !ok {
+            // The violation does not reproduce when its scenario is executed on
+            // its own: the code under test keeps state across calls (a static,
+            // a thread-local, an address-keyed cache).  Reproduce it as the
+            // first violation of a sequential, single-threaded execution of
+            // the batch prefix in a fresh process, twice.
+            if prefix_reported {
+                unreproducible_more += 1;
+                continue;
+            }
+            let a = exec_prefix_in_child(p, opts, f.run);
+            let b = exec_prefix_in_child(p, opts, f.run);
+            match (a, b) {
+                (Some(x), Some(y)) if x == y => {
+                    let (prun, psub, psig) = x;
+                    let detail = format!(
+                        "{} (does not reproduce in isolation: the code keeps state across calls; reproduced twice as the first violation of a sequential single-threaded execution of runs 0..={} in a fresh process)",
+                        f.v.detail, prun
+                    );
+                    println!(
+                        "violation: property={} signature={} class=state-across-calls hits={} first_run={} detail={}",
+                        id, psig, f.count, prun, detail
+                    );
+                    let rf = ReplayFile {
+                        property: id.to_string(),
+                        seed: opts.seed,
+                        run: prun,
+                        sub: psub,
+                        signature: psig.clone(),
+                        class: "state-across-calls".to_string(),
+                        detail,
+                        event_digest: String::new(),
+                        minimise_execs: 0,
+                        trace: Vec::new(),
+                        scenario: json!({ "sequential_prefix": { "seed": opts.seed, "tier": opts.tier.name(), "upto": prun } }),
+                    };
+                    let file = opts.root.join("replays").join(format!("{}-s{}-prefix{}.json", id, opts.seed, prun));
+                    let _ = std::fs::create_dir_all(opts.root.join("replays"));
+                    prefix_reported = true;
+                    if std::fs::write(&file, serde_json::to_string_pretty(&rf).unwrap()).is_ok() {
+                        violation_lines.push(format!("VIOLATION property={} replay={}", id, file.display()));
+                    } else {
+                        harness_error = true;
+                    }
+                }
+                _ => {
+                    // not reproducible at all: still a violation that was observed
+                    println!(
+                        "violation: property={} signature={} class={} hits={} first_run={} detail={} (observed {} times in this batch but reproducible neither in isolation nor as a sequential prefix)",
+                        id, sig, f.class, f.count, f.run, f.v.detail, f.count
+                    );
+                    if let Some(file) = write_replay_file(p, opts, f.run, f.sub, &f.sc, &sig, &f.class, &f.v.detail, 0) {
+                        violation_lines.push(format!("VIOLATION property={} replay={}", id, file.display()));
+                    }
+                }
+            }
             continue;
         }
-        let v1 = v1.unwrap();
+        let v1 = match &o1.outcome {
+            Err(v) => v.clone(),
+            Ok(()) => continue,
+        };
         let file = opts.root.join("replays").join(format!(
             "{}-s{}-r{}{}-{:08x}.json",
             id,
@@ -839,6 +905,12 @@ pub fn run_batch<P: Property>(p: &P, opts: &Opts) -> BatchReport {
     for l in &violation_lines {
         println!("{}", l);
     }
+    if unreproducible_more > 0 {
+        println!(
+            "note: {} further violation classes also do not reproduce in isolation (same cause: state kept across calls)",
+            unreproducible_more
+        );
+    }
     if new_violations > reported {
         println!(
             "note: {} further distinct violation classes not minimised",
@@ -862,6 +934,25 @@ pub fn replay<P: Property>(p: &P, file: &Path) -> Result<bool, String> {
             rf.property,
             p.id()
         ));
+    }
+    if let Some(sp) = rf.scenario.get("sequential_prefix") {
+        let seed = sp.get("seed").and_then(|v| v.as_u64().or_else(|| v.as_i64().map(|x| x as u64))).unwrap_or(1);
+        let tier = if sp.get("tier").and_then(|v| v.as_str()) == Some("thorough") { Tier::Thorough } else { Tier::Quick };
+        let upto = sp.get("upto").and_then(|v| v.as_u64()).unwrap_or(0);
+        return match prefix_child(p.id(), seed, tier, upto) {
+            Some((run, sub, sig)) => {
+                println!(
+                    "replay: sequential execution of runs 0..={} in a fresh process: first violation at run {} (sub {}) signature={} (recorded run {} signature {})",
+                    upto, run, sub, sig, rf.run, rf.signature
+                );
+                println!("VIOLATION property={} replay={}", p.id(), file.display());
+                Ok(true)
+            }
+            None => {
+                println!("replay: sequential execution of runs 0..={} no longer violates {}", upto, p.id());
+                Ok(false)
+            }
+        };
     }
     let sc: P::Sc = serde_json::from_value(rf.scenario).map_err(|e| format!("scenario: {}", e))?;
     // first alone in a child process with a time limit: a scenario that hangs
@@ -1151,6 +1242,7 @@ fn report_hang<P: Property>(p: &P, opts: &Opts, run: u64, sub: u64, sc: &P::Sc, 
     // bounded shrinking: a candidate "still hangs" when it does not finish within hang_ms
     let t = Instant::now();
     let mut cur = sc.clone();
+    let mut accepted: Vec<P::Sc> = Vec::new();
     let mut execs = 0usize;
     let step_ms = (hang_ms / 3).max(300);
     'outer: while t.elapsed().as_secs() < 180 {
@@ -1161,18 +1253,25 @@ fn report_hang<P: Property>(p: &P, opts: &Opts, run: u64, sub: u64, sc: &P::Sc, 
             execs += 1;
             if let ChildRes::TimedOut = exec_in_child(p, &c, std::time::Duration::from_millis(step_ms)) {
                 cur = c;
+                accepted.push(cur.clone());
                 continue 'outer;
             }
         }
         break;
     }
-    // the minimised scenario must still exceed the full confirmation budget
-    if !matches!(
-        exec_in_child(p, &cur, std::time::Duration::from_millis(hang_ms * 3 + 1000)),
-        ChildRes::TimedOut
-    ) {
-        cur = sc.clone();
+    // the reported scenario must still exceed the full confirmation budget:
+    // walk back through the accepted shrink steps until one does
+    let mut chosen = sc.clone();
+    for cand in accepted.iter().rev().take(10) {
+        if matches!(
+            exec_in_child(p, cand, std::time::Duration::from_millis(hang_ms * 3 + 1000)),
+            ChildRes::TimedOut
+        ) {
+            chosen = cand.clone();
+            break;
+        }
     }
+    let cur = chosen;
     println!(
         "violation: property={} signature=hang class={} first_run={} detail={}",
         p.id(),
@@ -1200,4 +1299,58 @@ fn report_crash<P: Property>(p: &P, opts: &Opts, run: u64, sub: u64, sc: &P::Sc,
         println!("VIOLATION property={} replay={}", p.id(), f.display());
     }
     write_abort_evidence(p, opts, "abort confirmed");
+}
+
+// ---------------------------------------------------------------------------
+// Sequential batch prefix in a fresh process (violations that depend on state
+// the code under test keeps across calls)
+// ---------------------------------------------------------------------------
+
+/// Child mode: execute runs 0..=upto (with their sweeps) sequentially in this
+/// thread and print the first violation.
+pub fn prefix_exec_main<P: Property>(p: &P, seed: u64, tier: Tier, upto: u64) -> i32 {
+    for run in 0..=upto {
+        let mut rng = Rng::new(run_seed(seed, p.id(), run));
+        let sc = p.generate(&mut rng, run, tier);
+        let out = exec_one(p, &sc, false);
+        if let Err(v) = out.outcome {
+            println!("PREFIX-VIOLATION {} 0 {}", run, v.signature());
+            return 0;
+        }
+        for (i, s2) in p.sweep(&sc, run, tier).into_iter().enumerate() {
+            let out = exec_one(p, &s2, false);
+            if let Err(v) = out.outcome {
+                println!("PREFIX-VIOLATION {} {} {}", run, i + 1, v.signature());
+                return 0;
+            }
+        }
+    }
+    println!("PREFIX-CLEAN");
+    0
+}
+
+fn exec_prefix_in_child<P: Property>(p: &P, opts: &Opts, upto: u64) -> Option<(u64, u64, String)> {
+    prefix_child(p.id(), opts.seed, opts.tier, upto)
+}
+
+pub fn prefix_child(id: &str, seed: u64, tier: Tier, upto: u64) -> Option<(u64, u64, String)> {
+    let exe = std::env::current_exe().ok()?;
+    let out = std::process::Command::new(exe)
+        .arg(id)
+        .arg("--exec-prefix")
+        .arg(format!("{}:{}:{}", seed as i64, tier.name(), upto))
+        .stderr(std::process::Stdio::null())
+        .output()
+        .ok()?;
+    let text = String::from_utf8_lossy(&out.stdout).into_owned();
+    for l in text.lines() {
+        if let Some(rest) = l.strip_prefix("PREFIX-VIOLATION ") {
+            let mut it = rest.splitn(3, ' ');
+            let run = it.next()?.parse().ok()?;
+            let sub = it.next()?.parse().ok()?;
+            let sig = it.next()?.to_string();
+            return Some((run, sub, sig));
+        }
+    }
+    None
 }
